@@ -669,7 +669,7 @@ impl<'a> P<'a> {
 
     fn column_or_call(&mut self) -> R<PX> {
         let mut parts = vec![];
-        let mut last_was_word = false;
+        let mut last_was_word;
         loop {
             match self.peek() {
                 Some(Tok::Ident(n)) => {
